@@ -11,6 +11,7 @@ from common import *
 from absval import IntVal, PtrVal, CondVal, mk_const, NULL
 from lin import Lin, normalize
 from irlib import V
+import os
 
 CTYPE_RANGES = {
     'isspace': [(9, 13), (32, 32)],
@@ -141,7 +142,7 @@ class ScanInterp(Interp):
 # ----------------------------------------------------------------------
 # text parameters
 # ----------------------------------------------------------------------
-def text_setup(chars=None, open_ended=True, endptr='obj', text_arg=0, end_arg=1):
+def text_setup(chars=None, open_ended=True, endptr='obj', text_arg=0, end_arg=1, base=None, base_arg=2):
     """FnSpec.setup: argument text_arg is a NUL-terminated string.  chars: list of items for the
     leading characters - int (that character) or (lo, hi) (any character of that range, bound to
     the contract name c<k>); open_ended: the text continues arbitrarily after them, else it ends
@@ -172,6 +173,8 @@ def text_setup(chars=None, open_ended=True, endptr='obj', text_arg=0, end_arg=1)
             args[end_arg] = PtrVal(o.id, Lin(0))
         elif endptr == 'null':
             args[end_arg] = NULL
+        if base is not None:
+            args[base_arg] = mk_const(32, base)
     return setup
 
 
@@ -189,3 +192,449 @@ def end_store_hook(interp, st, i, p, v):
             else:
                 st.ghost['end_in_text'] = 0
                 st.ghost.pop('end', None)
+
+
+def coarse(ranges):
+    """cheaper ctype summary for the general (all texts) runs: true -> convex hull of the class,
+    false -> unconstrained.  Sound over-approximation; keeps 'true implies the byte is not NUL'."""
+    lo = min(r[0] for r in ranges)
+    hi = max(r[1] for r in ranges)
+
+    def ext(interp, st, i, args):
+        a = args[0]
+        if not isinstance(a, IntVal):
+            return [(st, None)]
+        s = st.force_s(a)
+        for (l, h) in ranges:
+            if st.cons.entails_le(l, s) and st.cons.entails_le(s, h):
+                return [(st, mk_const(32, 1))]
+        if st.cons.entails_lt(s, lo) or st.cons.entails_lt(hi, s):
+            return [(st, mk_const(32, 0))]
+        s2 = st.fork()
+        s2.cons.add_le(lo, s)
+        s2.cons.add_le(s, hi)
+        out = []
+        if not interp.infeasible(s2, s, Lin(0)):
+            out.append((s2, mk_const(32, 1)))
+        out.append((st, mk_const(32, 0)))
+        return out
+    return ext
+
+
+COARSE_EXT = {k: coarse(v) for k, v in CTYPE_RANGES.items()}
+
+CASTS = ('zext', 'sext', 'trunc')
+
+
+def strip_casts(f, v):
+    chain = []
+    while v.k == 'inst' and f.insts[v.id].op in CASTS:
+        chain.append(f.insts[v.id])
+        v = f.insts[v.id].ops[0]
+    return v, chain
+
+
+# ----------------------------------------------------------------------
+# digit loop anchors and the cut-off arithmetic (R-CUTOFF)
+# ----------------------------------------------------------------------
+def digit_loop(f):
+    """structural anchors: P_acc/P_any header phis of the loop that accumulates the value,
+    Q_acc/Q_any the phis merging one iteration's outcomes, the accumulate instructions."""
+    w = f.ret.get('bits')
+    found = []
+    for L in f.loops:
+        h = L['header']
+        phis = [i for i in h.insts if i.op == 'phi']
+        for pa in phis:
+            if pa.ty.get('k') != 'int' or pa.bits != w:
+                continue
+            lat = [v for (bb, v) in pa.incoming if f.bmap[bb] in L['blocks']]
+            if len(lat) != 1 or lat[0].k != 'inst':
+                continue
+            qa = f.insts[lat[0].id]
+            if qa.op != 'phi' or qa.block is h:
+                continue
+            sites = []
+            for (bb, v) in qa.incoming:
+                if v.k != 'inst':
+                    continue
+                A = f.insts[v.id]
+                if A.op not in ('add', 'sub'):
+                    continue
+                m = f.inst_of(A.ops[0])
+                if m is None or m.op != 'mul':
+                    continue
+                mo = [o for o in m.ops if not (o.k == 'inst' and o.id == pa.id)]
+                if len(mo) != 1:
+                    continue
+                sites.append({'edge': bb, 'A': A, 'M': m, 'base': mo[0], 'digit': A.ops[1]})
+            if not sites:
+                continue
+            for pf in phis:
+                if pf is pa or pf.ty.get('k') != 'int':
+                    continue
+                latf = [v for (bb, v) in pf.incoming if f.bmap[bb] in L['blocks']]
+                if len(latf) != 1 or latf[0].k != 'inst':
+                    continue
+                qf = f.insts[latf[0].id]
+                if qf.op != 'phi' or qf.block is not qa.block:
+                    continue
+                consts = set(v.ival for (bb, v) in qf.incoming if v.k == 'ci')
+                if not consts or not consts <= {1, -1}:
+                    continue
+                found.append({'loop': L, 'P_acc': pa, 'P_any': pf, 'Q_acc': qa, 'Q_any': qf, 'sites': sites})
+    if len(found) != 1:
+        raise AnalysisBroken('%s: digit loop anchors (accumulator/flag phis) not resolvable: %d candidates'
+                             % (f.name, len(found)))
+    d = found[0]
+    roots = set()
+    for s in d['sites']:
+        dr, dch = strip_casts(f, s['digit'])
+        br, bch = strip_casts(f, s['base'])
+        s['digit_root'], s['digit_chain'] = dr, dch
+        s['base_root'], s['base_chain'] = br, bch
+        roots.add((dr.key(), br.key(), tuple(c.op for c in dch)))
+    if len(roots) != 1:
+        raise AnalysisBroken('%s: accumulate sites disagree on the digit/base values' % f.name)
+    # signedness of the accumulator variable (debug info)
+    sg = None
+    for b in f.blocks:
+        for i in b.insts:
+            if i.op == 'dbg' and i.ops and i.ops[0].k == 'inst' and i.ops[0].id == d['P_acc'].id and \
+                    i.d.get('signed', -1) in (0, 1):
+                sg = i.d['signed'] == 1
+    if sg is None:
+        raise AnalysisBroken('%s: signedness of the accumulator not in debug info' % f.name)
+    d['acc_signed'] = sg
+    qa, qf = d['Q_acc'], d['Q_any']
+    return d
+
+
+class Tally:
+    def __init__(self, fname, label):
+        self.fname = fname
+        self.label = label
+        self.r = {}
+
+    def ob(self, kind, ok, where, detail=None):
+        k = '%s: %s' % (self.label, kind)
+        e = self.r.get(k)
+        if e is None:
+            e = self.r[k] = [True, where, None, 0]
+        e[3] += 1
+        if not ok and e[0]:
+            e[0] = False
+            e[1] = where
+            e[2] = detail
+
+    def need(self, kind, where, why):
+        k = '%s: %s' % (self.label, kind)
+        if k not in self.r:
+            self.r[k] = [False, where, why, 0]
+
+    def items(self, rule):
+        return [(rule, self.fname, k, e[0], e[1], e[2]) for k, e in sorted(self.r.items())]
+
+
+def unknown_text(sign_char, base):
+    def content(interp, st, o, off, ty):
+        if off == 0 and ty.get('bits') == 8:
+            return mk_const(8, sign_char)
+        return None
+
+    def setup(run, st, env, pnames, args, sps):
+        o = st.new_obj('param', None, 'text', {'desc': 'text', 'content': content})
+        args[0] = PtrVal(o.id, Lin(0))
+        e = st.new_obj('param', Lin(8), 'endptr', {'desc': '*endptr', 'role': 'endptr'})
+        args[1] = PtrVal(e.id, Lin(0))
+        args[2] = mk_const(32, base)
+    return setup
+
+
+def cutoff_run(mod, fname, base, neg, externals):
+    """one function, one base argument, texts '-...' (neg) or '+...': evaluate the obligations of
+    the digit loop's edges.  Returns rule instances."""
+    f = mod.fn(fname)
+    if f is None or f.decl:
+        raise AnalysisBroken('%s not defined (anchor vanished)' % fname)
+    w = f.ret.get('bits')
+    dit = f.d.get('ditypes') or []
+    if not dit or dit[0].get('signed') not in (0, 1):
+        raise AnalysisBroken('%s: result signedness unknown' % fname)
+    rsigned = dit[0]['signed'] == 1
+    d = digit_loop(f)
+    M = 1 << w
+    if not rsigned:
+        mode, lo, hi, sgn = 'unsigned', 0, M - 1, 1
+        clamp = M - 1
+    elif not d['acc_signed']:
+        mode, lo, hi, sgn = 'magnitude', 0, (M >> 1) - 1 + neg, 1
+        clamp = (M >> 1) if neg else (M >> 1) - 1
+    else:
+        mode = 'direct'
+        lo, hi, sgn = (-(M >> 1), 0, -1) if neg else (0, (M >> 1) - 1, 1)
+        clamp = (M >> 1) if neg else (M >> 1) - 1
+    T = Tally(fname, 'base %d, %s text' % (base, 'negative' if neg else 'non-negative'))
+    pa, pf, qa, qf = d['P_acc'], d['P_any'], d['Q_acc'], d['Q_any']
+    site0 = d['sites'][0]
+    state = {'flag_clamped': True, 'rejects': 0}
+
+    def acc_lin(st, v):
+        return st.force_s(v) if mode == 'direct' else st.force_u(v)
+
+    def digit_and_base(interp, st):
+        dv = interp.val(st, site0['digit_root'], f)
+        for c in reversed(site0['digit_chain']):
+            dv = interp.cast(st, c, dv)
+        bv = interp.val(st, site0['base_root'], f)
+        for c in reversed(site0['base_chain']):
+            bv = interp.cast(st, c, bv)
+        if not isinstance(dv, IntVal) or not isinstance(bv, IntVal):
+            return None, None
+        return st.force_s(dv), bv.sconst()
+
+    def edge(interp, fn, b, st, frm):
+        if fn is not f or b is not qa.block:
+            return
+        vany = dict(qf.incoming).get(frm.name)
+        vacc = dict(qa.incoming).get(frm.name)
+        where = frm.term.where()
+        anyv = st.env.get(('i', pf.id))
+        accv = st.env.get(('i', pa.id))
+        if vany is None or vacc is None or not isinstance(anyv, IntVal) or not isinstance(accv, IntVal):
+            T.ob('edge-classified', False, where, 'edge %s of the digit loop not understood' % frm.name)
+            return
+        anyl = st.force_s(anyv)
+        flagged = st.cons.entails_le(anyl, -1)
+        clean = st.cons.entails_le(0, anyl)
+        acc = acc_lin(st, accv)
+        same_acc = vacc.k == 'inst' and vacc.id == pa.id
+        if vany.k == 'ci' and vany.ival == 1:
+            A = f.inst_of(vacc)
+            site = [s for s in d['sites'] if A is not None and s['A'] is A]
+            D, B = digit_and_base(interp, st)
+            if not site or D is None or B is None or B <= 0:
+                T.ob('accept-exact', False, where, 'accepted digit does not update the accumulator by acc*base+-digit '
+                     '(base value %r)' % (B,))
+                return
+            T.ob('digit-below-base', st.cons.entails_le(0, D) and st.cons.entails_le(D, B - 1), where,
+                 'digit value not provably in [0, %d]' % (B - 1))
+            got = acc * B + D if A.op == 'add' else acc * B - D
+            want = acc * B + D * sgn
+            ok = (got - want).is_const() and (got - want).c == 0 and \
+                st.cons.entails_le(lo, want) and st.cons.entails_le(want, hi)
+            T.ob('accept-exact', ok and not flagged, where,
+                 'accepted digit: new value %r not provably the exact value acc*%d%+d*digit inside [%d, %d]%s'
+                 % (got, B, sgn, lo, hi, interp.explain(st, [acc, D])))
+        elif (vany.k == 'ci' and vany.ival == -1 and clean):
+            D, B = digit_and_base(interp, st)
+            state['rejects'] += 1
+            if D is None or B is None or B <= 0:
+                T.ob('reject-overflows', False, where, 'digit/base not evaluable on the rejecting edge')
+                return
+            want = acc * B + D * sgn
+            ok = st.cons.entails_le(hi + 1, want) if sgn > 0 else st.cons.entails_le(want, lo - 1)
+            T.ob('reject-overflows', ok, where,
+                 'digit rejected although acc*%d%+d*digit = %r is not provably outside [%d, %d]%s'
+                 % (B, sgn, want, lo, hi, interp.explain(st, [acc, D])))
+            nv = interp.val(st, vacc, f)
+            is_clamp = isinstance(nv, IntVal) and nv.const() == clamp % M
+            if not is_clamp:
+                state['flag_clamped'] = False
+            T.ob('reject-keeps-or-clamps', same_acc or is_clamp, where,
+                 'accumulator after an overflow is neither unchanged nor the type limit %d' % clamp)
+        elif flagged and ((vany.k == 'ci' and vany.ival == -1) or (vany.k == 'inst' and vany.id == pf.id)):
+            T.ob('flag-sticky', same_acc, where, 'accumulator modified although the overflow flag is already set')
+        else:
+            T.ob('edge-classified', False, where,
+                 'a digit passes the loop without being accumulated or rejected (flag value %r)' % (anyl,))
+
+    def at_ret(interp, fn, t, st, rv):
+        if fn is not f:
+            return
+        anyv = st.env.get(('i', pf.id))
+        accv = st.env.get(('i', pa.id))
+        if not isinstance(anyv, IntVal) or not isinstance(rv, IntVal):
+            return
+        anyl = st.force_s(anyv)
+        if st.cons.entails_le(0, anyl):
+            return
+        flagged = st.cons.entails_le(anyl, -1)
+        is_clamp = rv.const() == clamp % M
+        is_acc = False
+        if isinstance(accv, IntVal):
+            a, r = acc_lin(st, accv), acc_lin(st, rv)
+            is_acc = (a - r).is_const() and (a - r).c == 0
+        if flagged:
+            ok = is_clamp or (is_acc and state['flag_clamped'] and state['rejects'] > 0)
+            T.ob('overflow-returns-type-limit', ok, t.where(),
+                 'with the overflow flag set the function returns %r instead of the limit %d of its %d-bit %s result'
+                 % (rv, clamp if not (rsigned and neg) else -clamp, w, 'signed' if rsigned else 'unsigned'))
+        else:
+            # flag not tested after the loop: only sound when every rejecting edge stored the limit
+            ok = is_acc and state['flag_clamped']
+            T.ob('overflow-returns-type-limit', ok, t.where(),
+                 'the result does not depend on the overflow flag and the accumulator is not clamped when the flag is set')
+    it = ScanInterp(mod, externals=externals)
+    it.edge_hook = edge
+    it.ret_hook = at_ret
+    run = ContractRun(it, [])
+    run.run(fname, FnSpec(setup=unknown_text(45 if neg else 43, base)))
+    where = '%s:%d' % (f.file, f.line)
+    for k in ('digit-below-base', 'accept-exact', 'reject-overflows', 'reject-keeps-or-clamps', 'flag-sticky',
+              'overflow-returns-type-limit'):
+        T.need(k, where, 'no such edge/return is reachable: the overflow handling is missing')
+    return T.items('R-CUTOFF')
+
+
+# ----------------------------------------------------------------------
+# R-SIBLING: constants of sign / prefix / digit handling agree across the strto* family
+# ----------------------------------------------------------------------
+def scanner_facts(f):
+    """facts read off the IR of one scanner (no source text involved)"""
+    chars = set()          # SSA ids holding a text character (load i8 and its casts/phis)
+    bases = set()          # SSA keys derived from the base argument
+    ptrs = set()
+    if len(f.params) < 3:
+        raise AnalysisBroken('%s: expected (text, endptr, base)' % f.name)
+    bases.add(('a', 2))
+    ptrs.add(('a', 0))
+    changed = True
+    insts = list(f.all_insts())
+    while changed:
+        changed = False
+        for i in insts:
+            k = ('i', i.id)
+            opk = [o.key() for o in i.ops if o.k in ('inst', 'arg')]
+            if k not in ptrs and i.op in ('getelementptr', 'phi', 'bitcast', 'select') and i.ty.get('k') == 'ptr' and \
+                    any(x in ptrs for x in opk):
+                ptrs.add(k)
+                changed = True
+            if k not in chars and ((i.op == 'load' and i.bits == 8 and opk and opk[0] in ptrs) or
+                                   (i.op in CASTS + ('phi',) and any(x in chars for x in opk))):
+                chars.add(k)
+                changed = True
+            if k not in bases and i.op in ('phi', 'select') + CASTS and i.ty.get('k') == 'int' and \
+                    any(x in bases for x in opk) and not any(x in chars for x in opk):
+                bases.add(k)
+                changed = True
+    facts = {'text characters compared': set(), 'base values tested': set(), 'bases assigned': set(),
+             'digit biases': set(), 'ctype predicates': set(), 'cursor steps': set()}
+
+    def consts_of(v, depth=0):
+        if v.k == 'ci':
+            return {v.ival}
+        i = f.inst_of(v)
+        if i is not None and i.op == 'select' and depth < 3:
+            return consts_of(i.ops[1], depth + 1) | consts_of(i.ops[2], depth + 1)
+        return set()
+    for i in insts:
+        opk = [o.key() if o.k in ('inst', 'arg') else None for o in i.ops]
+        if i.op == 'icmp' and i.pred in ('eq', 'ne'):
+            for a, b in ((0, 1), (1, 0)):
+                if i.ops[b].k == 'ci':
+                    if opk[a] in chars:
+                        facts['text characters compared'].add(i.ops[b].ival & 0xff)
+                    elif opk[a] in bases:
+                        facts['base values tested'].add(i.ops[b].ival)
+        if i.op == 'switch' and opk and opk[0] in bases:
+            facts['base values tested'].update(c['v'] for c in i.d['cases'])
+        if i.op == 'switch' and opk and opk[0] in chars:
+            facts['text characters compared'].update(c['v'] & 0xff for c in i.d['cases'])
+        if ('i', i.id) in bases and i.op in ('phi', 'select'):
+            ops = i.ops[1:] if i.op == 'select' else i.ops
+            for o in ops:
+                facts['bases assigned'].update(consts_of(o))
+        if i.op == 'sub' and opk[0] in chars:
+            facts['digit biases'].update(consts_of(i.ops[1]))
+        if i.op == 'add' and opk[0] in chars and i.ops[1].k == 'ci':
+            facts['digit biases'].add(-i.ops[1].ival)
+        if i.op == 'call' and i.callee and i.callee.startswith('is'):
+            facts['ctype predicates'].add(i.callee)
+        if i.op == 'getelementptr' and opk and opk[0] in ptrs:
+            for s in i.d['gep']['steps']:
+                if s['k'] == 'index' and s['v']['k'] == 'ci':
+                    facts['cursor steps'].add(s['v']['v'] * s['stride'])
+    return {k: tuple(sorted(v)) for k, v in facts.items()}
+
+
+def sibling_rule(rep, repo, scanners, compile_unit):
+    allf = {}
+    where = {}
+    for (fname, rel) in scanners:
+        mod = compile_unit(repo, rel)
+        f = mod.fn(fname)
+        if f is None or f.decl:
+            raise AnalysisBroken('%s not defined in %s (anchor vanished)' % (fname, rel))
+        allf[fname] = scanner_facts(f)
+        where[fname] = '%s:%d' % (f.file, f.line)
+    kinds = sorted(next(iter(allf.values())).keys())
+    for k in kinds:
+        votes = {}
+        for fname, fa in allf.items():
+            votes.setdefault(fa[k], []).append(fname)
+        consensus = max(votes.items(), key=lambda kv: (len(kv[1]), kv[0]))[0]
+        for fname, fa in allf.items():
+            ok = fa[k] == consensus and len(consensus) > 0
+            rep.inst('R-SIBLING', fname, k, ok, where[fname],
+                     None if ok else '%s of %s are %s, the other strto* siblings use %s'
+                     % (k, fname, list(fa[k]), list(consensus)), fact={'values': list(fa[k])})
+    # the consensus itself must be the ISO alphabet
+    want = {'text characters compared': (43, 45, 48, 88, 120), 'base values tested': (0, 16),
+            'bases assigned': (8, 10, 16), 'digit biases': (48, 55, 87)}
+    ref = scanners[0][0]
+    for k, w in want.items():
+        votes = {}
+        for fname, fa in allf.items():
+            votes.setdefault(fa[k], []).append(fname)
+        consensus = max(votes.items(), key=lambda kv: (len(kv[1]), kv[0]))[0]
+        rep.inst('R-SIBLING', 'strto* family', 'consensus: ' + k, consensus == w, where[ref],
+                 None if consensus == w else 'the family agrees on %s = %s, ISO C needs %s' % (k, list(consensus), list(w)))
+
+
+# ----------------------------------------------------------------------
+# R-CTYPE: closed forms of the bundled ctype predicates
+# ----------------------------------------------------------------------
+def ctype_rule(rep, repo):
+    mod = witness('w_c11_ctype.c', repo, flags=['-I' + os.path.join(repo, 'compat/libc/include')])
+    # the witness must have picked the bundled header: its predicates forward to igris_is*
+    names = set(f.name for f in mod.defined())
+    for p in ('igris_isspace', 'igris_isdigit', 'igris_isalpha', 'igris_isupper'):
+        if p not in names:
+            raise AnalysisBroken('witness w_c11_ctype.c did not compile against compat/libc/include/ctype.h (%s missing)' % p)
+    specs = {}
+    for pred in ('isspace', 'isdigit', 'isalpha', 'isupper', 'isxdigit'):
+        post = []
+        prev = -(1 << 31)
+        for (lo, hi) in sorted(CTYPE_RANGES[pred]):
+            post.append(dict(name='false on [%d, %d]' % (prev, lo - 1), when=['arg0 >= %d' % prev, 'arg0 <= %d' % (lo - 1)],
+                             then=['ret == 0']))
+            post.append(dict(name='true on [%d, %d]' % (lo, hi), when=['arg0 >= %d' % lo, 'arg0 <= %d' % hi],
+                             then=['ret >= 1']))
+            prev = hi + 1
+        post.append(dict(name='false on [%d, %d]' % (prev, (1 << 31) - 1), when=['arg0 >= %d' % prev], then=['ret == 0']))
+        specs['igris_c11_' + pred] = FnSpec(post=post)
+    run_contracts(rep, 'R-CTYPE', mod, [], specs)
+
+
+# ----------------------------------------------------------------------
+# R-FORWARD: atoi is (int) atol
+# ----------------------------------------------------------------------
+def forward_rule(rep, repo, mod):
+    f = mod.fn('atoi')
+    g = mod.fn('atol')
+    if f is None or f.decl or g is None or g.decl:
+        raise AnalysisBroken('atoi/atol not defined (anchor vanished)')
+    where = '%s:%d' % (f.file, f.line)
+    calls = [c for c in f.calls() if c.callee]
+    ok = len(calls) == 1 and calls[0].callee == 'atol' and calls[0].ops and calls[0].ops[0].k == 'arg' and \
+        calls[0].ops[0].argno == 0
+    rep.inst('R-FORWARD', 'atoi', 'calls atol(text) once', ok, where,
+             None if ok else 'atoi does not forward its argument to atol')
+    rets = f.returns()
+    ok2 = False
+    if ok and len(rets) == 1 and rets[0].ops:
+        v, chain = strip_casts(f, rets[0].ops[0])
+        ok2 = v.k == 'inst' and v.id == calls[0].id and all(c.op == 'trunc' for c in chain)
+    rep.inst('R-FORWARD', 'atoi', 'returns (int) of that result', ok2, where,
+             None if ok2 else 'atoi does not return the truncated result of atol')
